@@ -67,6 +67,8 @@ Definition vstack (arrs : list (arr T)) : res (arr T) :=
   | [] => empty
   | first :: _ =>
     let* _ := validate_stack_shapes arrs 0 0 in
+    (* vectors become the rows of a matrix: they must all have the first one's length (repair F30) *)
+    let* _ := if ndim first =? 1 then guard (forallb (fun a => nat_list_eqb (shape a) (shape first)) arrs) EConcat else Ok tt in
     let new_shape := if ndim first =? 1 then length arrs :: shape first else upd (shape first) 0 (sum_axis arrs 0) in
     let* c := concatenate arrs (Some 0) in reshape c new_shape
   end.
